@@ -50,19 +50,31 @@ func Ldexp(frac Decimal, exp int) Decimal {
 		return frac
 	}
 
-	if exp < minUnbiasedExponent {
-		return zero(frac.Signbit())
-	}
-
-	if exp > maxUnbiasedExponent+39 {
-		return inf(frac.Signbit())
-	}
-
 	neg := frac.Signbit()
 	fsig, fexp := frac.decompose()
-	fexp += int16(exp)
 
-	sig, exp16 := DefaultRoundingMode.reduce128(neg, fsig, fexp, 0)
+	// frac's own exponent can compensate for an exp that on its own is far
+	// outside the exponent range, so only the sum decides. The first two
+	// checks keep the sum from overflowing.
+	if exp < -(maxBiasedExponent + maxDigits + 1) {
+		return zero(neg)
+	}
+
+	if exp > maxBiasedExponent+maxDigits {
+		return inf(neg)
+	}
+
+	e := int(fexp) + exp
+
+	if e < -maxDigits {
+		return zero(neg)
+	}
+
+	if e >= maxBiasedExponent+maxDigits {
+		return inf(neg)
+	}
+
+	sig, exp16 := DefaultRoundingMode.reduce128(neg, fsig, int16(e), 0)
 
 	if exp16 > maxBiasedExponent {
 		return inf(neg)
